@@ -199,6 +199,51 @@ func genC15(o *Out, rng *rand.Rand, tier string) {
 		}},
 	}
 	_ = time.Second
+	// what servers and clients really do with the builders: every builder x every message type given by the caller x the
+	// header fields the RFC attaches rules to (relayed or not, broadcast bit, client address), with and without a
+	// caller's own choice of the broadcast bit - the builder's result is its defaults, then the caller's modifiers
+	for _, b := range builders {
+		for mt := 1; mt <= 8; mt++ {
+			for combo := 0; combo < 8; combo++ {
+				in := input4(rng)
+				if combo&1 == 1 {
+					in.GatewayIPAddr = net.IPv4(10, 7, 0, byte(1+rng.Intn(200))).To4()
+				} else {
+					in.GatewayIPAddr = net.IPv4zero.To4()
+				}
+				in.Flags = []uint16{0, 0x8000}[combo>>1&1]
+				if combo&4 == 4 {
+					in.ClientIPAddr = net.IPv4(10, 8, 0, byte(1+rng.Intn(200))).To4()
+				}
+				mods := []dhcpv4.Modifier{dhcpv4.WithMessageType(dhcpv4.MessageType(mt))}
+				descs := []any{map[string]any{"k": "opt", "c": 53, "v": []int{mt}}}
+				if (mt+combo)%3 == 0 {
+					bc := (mt+combo)%2 == 0
+					mods = append(mods, dhcpv4.WithBroadcast(bc))
+					descs = append(descs, map[string]any{"k": "bcast", "v": bc})
+				}
+				hw := net.HardwareAddr(randBytes(rng, 6))
+				ip := net.IP(randBytes(rng, 4))
+				inJSON := proj4(in)
+				inJSON["hw"], inJSON["ip"] = B(hw), B(ip)
+				rec := map[string]any{"op": "B4", "builder": b.name, "in": inJSON, "mods": descs}
+				func() {
+					defer func() {
+						if r := recover(); r != nil {
+							rec["out"] = map[string]any{"panic": fmt.Sprint(r)}
+						}
+					}()
+					out, err := b.call(in, hw, ip, mods...)
+					if err != nil {
+						rec["out"] = map[string]any{"ok": false}
+					} else {
+						rec["out"] = map[string]any{"ok": true, "val": proj4(out)}
+					}
+				}()
+				o.Emit(rec, "builder-by-message-type-"+b.name, append([]byte(b.name+fmt.Sprint(descs)), in.ToBytes()...), true)
+			}
+		}
+	}
 	for i := 0; i < n; i++ {
 		other := input4(rng)
 		k := rng.Intn(5)
